@@ -5,42 +5,7 @@ From WD Require Import Base Wire Conn Color LetterId Matcher MatcherParse Doc.
 From WD Require Import MatcherProofs DocSemLevels.
 Open Scope Z_scope.
 
-(* ---- the side condition ------------------------------------------------------------------------------ *)
-(* an item that simplification folds to a constant *)
-Definition triv_true (i : ditem) : bool := is_always true (simplify (elab_item i)).
-Definition triv_false (i : ditem) : bool := is_always false (simplify (elab_item i)).
-
-(* the argument list that simplification folds to `*` although it asks for an argument:
-   at least one item, every item trivially true, every exclusion trivially false *)
-Definition star_folded (d : dargs) : bool :=
-  match d with
-  | AItems pos neg => nonempty pos && forallb triv_true pos && forallb triv_false neg
-  | _ => false
-  end.
-
-(* a trivially-true exclusion is harmless when there is also a positive item
-   (the list then never matches, with or without arguments) *)
-Definition excl_ok (d : dargs) : bool :=
-  match d with
-  | AItems pos neg => negb (existsb triv_true neg) || nonempty pos
-  | _ => true
-  end.
-
-Definition args_ok (d : dargs) (l : list varg) : bool :=
-  excl_ok d && (nonempty l || negb (star_folded d)).
-
-Definition pat_ok (p : dpat) (m : vmsg) : bool :=
-  match dp_body p with
-  | BFull _ _ (Some d) => args_ok d (vm_args m)
-  | _ => true
-  end.
-
-Definition side_ok (e : dtop) (m : vmsg) : bool :=
-  match e with
-  | TPats pos neg => forallb (fun p => pat_ok p m) pos && forallb (fun p => pat_ok p m) neg
-  | _ => true
-  end.
-
+(* the side condition (triv_true ... side_ok) is defined in Model/Doc.v so that the correspondence harness can evaluate it *)
 Definition side_condition (e : dtop) (m : vmsg) : Prop := side_ok e m = true.
 
 (* ---- MatcherArgsList.simplify ------------------------------------------------------------------------ *)
